@@ -4,6 +4,8 @@ Arm "diff" (live): a generated host program (calls, recursion, loops, try/except
 awkward values, seeded global random) is run twice in the simulator - agent absent, agent attached with a generated
 tracepoint configuration and injected faults - and the host-visible history must be equal; any exception leaving
 trace_call is observed directly at the trace seam.
+Arm "flood" (live): a loop hits a snapshot tracepoint 70-260 times while the service stalls, fails or is slow on
+every send; the host must finish with the same output whatever the collector does (no back-pressure onto the host).
 Arm "crash" (mode D, fault enumeration): for a corpus of trigger shapes every line of agent code executed below
 trace_call is a crash point; an InjectedFault raised there must never leave trace_call.
 """
@@ -22,7 +24,8 @@ RULE = ("arm diff: seeded host programs x seeded tracepoint configurations (well
         "nameless method tracepoints, failing conditions/watches/log fields/metric expressions, unparsable limits) x "
         "faults (raising dunders on frame values, plugin callbacks raising Exception/BaseException, send errors, "
         "source unavailable) x 1-3 threads x seeded schedules, each run compared with the same program without the "
-        "agent; arm crash: ENUMERATION of every crash point (line of agent code below trace_call whose bytecode can "
+        "agent; arm flood: 70-260 tracepoint hits in a loop x collector stalled for good / slow / failing x 1-2 "
+        "threads, host must terminate with equal output; arm crash: ENUMERATION of every crash point (line of agent code below trace_call whose bytecode can "
         "raise, deep.logging excluded) of %d trigger shapes x event kinds, one injected failure per run "
         "(thorough: all points; quick: a seeded sample); non-trivial = a run in which a tracepoint action or a "
         "fault actually occurred; distinct = distinct scenarios")
@@ -80,7 +83,7 @@ LOG_POOL = ("plain", "n={n}", "{tag} {nosuch}", "{{braces}} {n}", "{ctx} {out}",
 
 
 def _prog(pspec):
-    r = random.Random(pspec["seed"])
+    r = random.Random(pspec["seed"] * 7919 + 13)   # not the scenario stream again
     return hostgen.gen_program(r, pspec["name"], nfuncs=pspec["nfuncs"], offenders=pspec["offenders"],
                                use_random=pspec["use_random"])
 
@@ -105,6 +108,10 @@ def generate(seed, tier):
         shape = r.randrange(len(SHAPES))
         return {"arm": "crash", "shape": shape, "pick": r.random(), "base": r.random() < 0.25,
                 "knobs": {"p_switch": 0.0, "cost_ns": 1000, "clock_step_ns": 2000, "stall_p": 0.0}}
+    if r.random() < 0.06:
+        return {"arm": "flood", "hits": r.choice((70, 100, 140, 260)), "threads": r.choice((1, 1, 2)),
+                "collector": r.choice(("stalled", "stalled", "slow", "failing")), "kind": r.choice(("snapshot", "snaplog", "capture")),
+                "knobs": common.draw_knobs(r, stall_p=0.0)}
     nthreads = r.choice((1, 1, 2, 3))
     pspec = {"seed": seed, "name": "simhost_%d" % (seed % 7), "nfuncs": r.randrange(2, 6),
              "offenders": r.random() < 0.6, "use_random": nthreads == 1 and r.random() < 0.5}
@@ -168,7 +175,76 @@ def shrink_candidates(s):
 
 
 def execute(s, ch):
-    return _diff(s, ch) if s["arm"] == "diff" else _crash(s, ch)
+    return _diff(s, ch) if s["arm"] == "diff" else _flood(s, ch) if s["arm"] == "flood" else _crash(s, ch)
+
+
+FLOOD_SRC = '''
+def step(i, acc):
+    acc = acc + i * 3
+    return acc
+
+def tmain(tid, n, out):
+    acc = tid
+    for i in range(n):
+        acc = step(i, acc)
+    out.append(('acc', acc))
+'''
+
+
+def _flood(s, ch):
+    """The collector stalls for good (or is slow, or fails) while a loop keeps hitting a snapshot tracepoint: the
+    host finishes with the same output.  A host thread parked behind the agent's delivery is reported by the kernel
+    as a hang (blocked until the simulated-hour cap)."""
+    viol = []
+    info = {"pushed": 0}
+
+    def main(k):
+        p = hostgen.start_program("simflood", prelude=False)
+        for ln in FLOOD_SRC.strip("\n").split("\n"):
+            p.lines.append(ln)
+        p.finish()
+        line = next(i + 1 for i, t in enumerate(p.lines) if "acc = acc + i * 3" in t)
+        w = world.World(k, python_plugin=False)
+        if s["collector"] == "stalled":
+            w.service.send_faults = lambda idx: {"delay": 10**6}
+        elif s["collector"] == "slow":
+            w.service.send_faults = lambda idx: {"delay": 7.0}
+        else:
+            w.service.send_faults = lambda idx: {"kind": "error", "delay": 0.5 if idx % 3 == 0 else 0}
+        g = p.load()
+        ref = []
+        for ti in range(s["threads"]):
+            out = []
+            g["tmain"](ti + 1, s["hits"], out)
+            ref.append(_norm(out))
+        rec = host.Recorder(k).attach(w)
+        rec.install()
+        w.start()
+        k.settle()
+        args = {"fire_count": "-1", "fire_period": "0"}
+        if s["kind"] == "snaplog":
+            args["log_msg"] = "acc={acc}"
+        if s["kind"] == "capture":
+            args["stage"] = "line_capture"
+        w.service.set_config([w.service.make_tp("flood", p.basename, line, args, ["i"])], "h1")
+        w.deep.poll.poll()
+        common.wait_until(k, lambda: len(w.handler._tp_config) > 0, 30)
+        g2 = p.load()
+        outs = [[] for _ in range(s["threads"])]
+        host.run_threads(k, [lambda ti=ti: g2["tmain"](ti + 1, s["hits"], outs[ti]) for ti in range(s["threads"])])
+        info["pushed"] = len(w.pushed)
+        for r_ in rec.raised:
+            viol.append(V("trace-call-raised:%s@%s" % (r_[5], r_[1]), "exception left trace_call: %s" % (r_,)))
+        for ti in range(s["threads"]):
+            if _norm(outs[ti]) != ref[ti]:
+                viol.append(V("host-output-differs", "thread %d with agent %s, without %s (collector %s)" % (
+                    ti, outs[ti], ref[ti], s["collector"])))
+        k.probe("flood_pushes", len(w.pushed))
+        k.probe("sends_in_flight_at_end", len(w.service.send_attempts) - len(w.service.snapshots))
+        w.close()
+
+    k = common.run_in_kernel(ch, s["knobs"], main)
+    return common.result(k, viol, key=repr((s["hits"], s["threads"], s["collector"], s["kind"])) if info["pushed"] else None)
 
 
 def _norm(out):
